@@ -129,9 +129,19 @@ func (w *World) userBody(ui int) {
 	for oi := range up.Ops {
 		op := &up.Ops[oi]
 		if w.runDone {
-			return
+			// after Run has returned only the control API is exercised: it must
+			// answer with the in-shutdown error / -1 and have no effect
+			switch op.K {
+			case "validate", "countx", "dup", "duplistener", "duplistener-bad", "register-none", "stopctx", "await-stop":
+			default:
+				continue
+			}
 		}
 		switch op.K {
+		case "await-stop":
+			vsched.Block("user:await-stop", func() bool { return w.runDone })
+			w.probes["control-after-stop-armed"]++
+			continue
 		case "pause":
 			for i := 0; i < max(1, op.N); i++ {
 				vsched.Yield("user:pause")
